@@ -11,6 +11,7 @@ import OFV.Proofs.C09WF
 import OFV.Proofs.C09Parity
 import OFV.Proofs.C09Parse
 import OFV.Proofs.C09Inter
+import OFV.Proofs.C09Bk3
 
 namespace OFV.C09
 open OFV.Model.C09 OFV.Spec.C09
@@ -229,6 +230,17 @@ theorem checksum_code_valid (n : Nat) (odd : Bool) (c : Code) (h : checksumCode 
     (v : List Nat) (hlen : v.length = n) (hb : ∀ x ∈ v, x ≤ 1) (hpar : (v.sum % 2 == 1) = odd) :
     ValidOn c v := checksum_valid' n odd c h v hlen hb hpar
 
+/-- The doubling loops of `_encoder_bk` / `_decoder_bk`: after `r` iterations the matrices are
+`2^(r+1)` square, the last encoder row is all ones, the decoder is lower triangular with 0/1
+entries and last column `e_last`, and the decoder inverts the encoder mod 2
+(`D (E v) ≡ v` for every integer vector `v`). -/
+theorem bk_matrices_inverse (r : Nat) : BkInv (2 ^ (r + 1)) (encIter r) (decIter r) := bkInv_iter r
+
+/-- `bravyi_kitaev_code(n)` decodes what it encodes, for every `n` (also when `n` is not a power
+of two: the principal `n x n` blocks of the binary-tree matrices) and every 0/1 vector. -/
+theorem bk_code_valid (n : Nat) (c : Code) (hc : bravyiKitaevCode n = .ok c) (v : List Nat)
+    (hlen : v.length = n) (hb : ∀ x ∈ v, x ≤ 1) : ValidOn c v := bk_valid' n c hc v hlen hb
+
 /-- `interleaved_code(2h)`: the loop builds the permutation matrix sending mode `2i` to qubit `i`
 and mode `2i + 1` to qubit `h + i` (rows `sigma`), the decoder is its transpose, and the code
 decodes what it encodes for every `h` and every 0/1 vector. -/
@@ -267,19 +279,11 @@ theorem weight_two_segment_code_valid_partial :
        [1,1,0,0,0], [1,0,1,0,0], [1,0,0,1,0], [1,0,0,0,1], [0,1,1,0,0], [0,1,0,1,0], [0,1,0,0,1],
        [0,0,1,1,0], [0,0,1,0,1]] = true := by decide
 
-/-- test (finite computation, not the unbounded claim): `bravyi_kitaev_code(n)` is valid on all
-vectors for `n ≤ 4`; the statement for all `n` is open. -/
-theorem test_bk_code_valid_small :
-    (validAll (bravyiKitaevCode 1) [[0], [1]] &&
-     validAll (bravyiKitaevCode 2) [[0,0], [1,0], [0,1], [1,1]] &&
-     validAll (bravyiKitaevCode 3) [[0,0,0], [1,0,0], [0,1,0], [1,1,0], [0,0,1], [1,0,1], [0,1,1], [1,1,1]] &&
-     validAll (bravyiKitaevCode 4) [[0,0,0,1], [1,0,1,0], [0,1,1,1], [1,1,0,0], [1,1,1,1]]) = true := by decide
-
 /-- test (finite computation): `weight_one_binary_addressing_code(2)` on its 4 weight-one vectors. -/
 theorem test_w1ba_valid_small :
     validAll (weightOneBinaryAddressingCode 2) [[1,0,0,0], [0,1,0,0], [0,0,1,0], [0,0,0,1]] = true := by decide
 
-example : (jordanWignerCode 3).toBool = true := by decide
+example : (jordanWignerCode 3).toBool = true ∧ (bravyiKitaevCode 5).toBool = true := by decide
 example (c : Code) (h : jordanWignerCode 3 = .ok c) : ValidOn c [1, 0, 1] :=
   jw_code_valid 3 c h _ (by decide)
 example : (parityCode 4).toBool = true ∧ (parityCode 1).toBool = true := by decide
